@@ -1,7 +1,7 @@
 (* Property C04: incremental reads guided by the missing-byte count reassemble the stream.
    Statements only; Reader/Reader.v is the reader loop, Lemmas/ReaderLemmas.v the induction over chunk lists. *)
 From Coq Require Import ZArith List Bool.
-From CP Require Import Core.Bytes Core.Result Frame.LVFrame Frame.Units Reader.Reader Lemmas.ReaderLemmas Lemmas.UnitLemmas Lemmas.UnitInstances Frame.Ssl2 Lemmas.Ssl2Lemmas.
+From CP Require Import Core.Bytes Core.Result Frame.LVFrame Frame.Units Reader.Reader Lemmas.ReaderLemmas Lemmas.UnitLemmas Lemmas.UnitInstances Frame.Ssl2 Lemmas.Ssl2Lemmas Frame.SshPacket Lemmas.SshPacketLemmas.
 Open Scope Z_scope.
 
 (* generic: for any parser and any sequence of frames that round-trip with a suffix and whose proper prefixes are
@@ -43,3 +43,9 @@ Theorem C04_ssl2_prefix_rejected : forall msg types f x k,
   ssl2_parse msg types f = Ok (x, zlen f) -> 0 <= k < zlen f ->
   exists m, ssl2_parse msg types (firstn (Z.to_nat k) f) = Err (NotEnoughData m) /\ 1 <= m <= zlen f - k.
 Proof. exact ssl2_prefix_rejected. Qed.
+
+(* SSH binary packets: the same honest prefix rejection *)
+Theorem C04_ssh_prefix_rejected : forall msg f x k,
+  ssh_parse msg f = Ok (x, zlen f) -> 0 <= k < zlen f ->
+  exists m, ssh_parse msg (firstn (Z.to_nat k) f) = Err (NotEnoughData m) /\ 1 <= m <= zlen f - k.
+Proof. exact ssh_prefix_rejected. Qed.
